@@ -274,7 +274,7 @@ func c20Unit(tier string) *Unit {
 				for _, inv := range invs {
 					inv := inv
 					evs = append(evs, ev{inv.name, func(ns *c20State) {
-						args := []string{"--timeout", "1s"}
+						args := []string{"--timeout", "5s"}
 						if inv.insecure {
 							args = append(args, "--insecure")
 						}
